@@ -106,13 +106,13 @@ Proof. apply inv_b_sound. vm_compute. reflexivity. Qed.
 (** the hypotheses of [grid_add_inv] / [pre _ (AddGrid _ _)] are met by two disjoint connected pairs;
     the sum holds all four blocks and both connections *)
 Example add_disjoint_pre : pre g_ab (AddGrid h_cd false).
-Proof. split; [exact h_cd_inv|]. apply common_name_false. vm_compute. reflexivity. Qed.
+Proof. split; [exact h_cd_inv|]. apply same_name_replaced, common_name_false. vm_compute. reflexivity. Qed.
 Example add_disjoint_result :
   exists r, step g_ab (AddGrid h_cd false) = Ok r /\ map (bn r) (blist r) = [a1; b1; c1n; d1n] /\ length (clist r) = 2%nat.
 Proof. eexists. split; [vm_compute; reflexivity|]. vm_compute. auto. Qed.
 (** ... and by a grid added to itself (every block name is common, every block is shared) *)
 Example add_self_pre : pre g_pair (AddGrid (view_of g_pair) false).
-Proof. split; [rewrite with_view_of; exact g_pair_inv|apply same_name_self; exact g_pair_inv]. Qed.
+Proof. split; [rewrite with_view_of; exact g_pair_inv|apply same_name_replaced, same_name_self; exact g_pair_inv]. Qed.
 
 (** finding add_block:replaces-connected-block through [__add__]: the other grid has a block named like
     a connected block of this one; the sum keeps the connection but not the block it joins *)
@@ -126,6 +126,17 @@ Proof.
   intro X. pose proof (i_ends _ X 4%positive) as K. vm_compute in K.
   destruct (K (or_introl eq_refl)) as [[E|[E|[]]] _]; discriminate E.
 Qed.
+
+(** the same two grids added the other way round: now the block that is replaced (the lone block a of the other grid)
+    has no connections; the precondition holds and the sum is the pair *)
+Example add_replacing_unconnected_pre : pre (with_view g_a2 (view_of g_pair)) (AddGrid (view_of g_a2) true).
+Proof.
+  split; [apply inv_b_sound; vm_compute; reflexivity|].
+  intros i i' Hi Hi' E. vm_compute in Hi. destruct Hi as [<-|[]]. right. vm_compute. reflexivity.
+Qed.
+Example add_replacing_unconnected_result :
+  exists r, step (with_view g_a2 (view_of g_pair)) (AddGrid (view_of g_a2) true) = Ok r /\ blist r = [2; 3]%positive /\ inv_b r = true.
+Proof. eexists. split; [vm_compute; reflexivity|]. vm_compute. auto. Qed.
 
 (** minc refuses two fracture blocks that generate the same matrix block name (and a name already in the grid) *)
 Example minc_colliding_matrix_names_refused :
@@ -144,7 +155,7 @@ Ltac grid_step :=
       intros g H; vm_compute in H; inversion H; subst g; clear H
   | |- True => exact I
   | |- Inv _ => apply inv_b_sound; vm_compute; reflexivity
-  | |- same_name_same_block _ _ _ => apply common_name_false; vm_compute; reflexivity
+  | |- replaced_blocks_unconnected _ _ _ => apply same_name_replaced, common_name_false; vm_compute; reflexivity
   | |- inj_on_blocks _ _ => let i := fresh in let i' := fresh in let Hi := fresh in let Hi' := fresh in let E := fresh in
       intros i i' Hi Hi' E; vm_compute in Hi, Hi';
       repeat (destruct Hi as [<-|Hi]; [|]); try contradiction;
